@@ -56,9 +56,9 @@ func Handle(c *core.Check, st core.State) {
 		c.Count("evaluations", 1)
 		rec, panicked := core.Guard(func() {
 			if partial {
-				val, _, diags = hcldec.PartialDecode(f.Body, spec, nil)
+				val, _, diags = hcldec.PartialDecode(f.Body, spec, dec.Ctx())
 			} else {
-				val, diags = hcldec.Decode(f.Body, spec, nil)
+				val, diags = hcldec.Decode(f.Body, spec, dec.Ctx())
 			}
 		})
 		how := "Decode"
@@ -101,7 +101,9 @@ func Handle(c *core.Check, st core.State) {
 			c.Violation(fmt.Sprintf("errorness/%s/spec=%v", culprit(sn), predErr), fmt.Sprintf("%s: specification says error=%v, Decode says error=%v%s", desc, predErr, diags.HasErrors(), what), vec)
 			return
 		}
-		if !predErr && predOK && !val.RawEquals(predVal) {
+		// HclValues.tla does not model refinements of unknown values: where the specification says
+		// "unknown of type T" an unknown of type T with refinements (RefineValueSpec) is that value
+		if !predErr && predOK && !val.RawEquals(predVal) && !unrefined(val).RawEquals(predVal) {
 			vsig := "value/" + culprit(sn)
 			if d := valueDiff(val, predVal); d != "" {
 				vsig = "value/" + d
@@ -202,6 +204,20 @@ func typeDiff(vt, it cty.Type, parent string) string {
 		}
 	}
 	return ""
+}
+
+// unrefined replaces every unknown part of v by the plain unknown of its type.
+func unrefined(v cty.Value) cty.Value {
+	out, err := cty.Transform(v, func(_ cty.Path, x cty.Value) (cty.Value, error) {
+		if !x.IsKnown() {
+			return cty.UnknownVal(x.Type()), nil
+		}
+		return x, nil
+	})
+	if err != nil {
+		return v
+	}
+	return out
 }
 
 // valueDiff names a recognisable root cause for a value mismatch ("" if none).
